@@ -524,6 +524,9 @@ def _correspondence(ctx, clib):
             ctx.violation('Bardell/Basis.lean differs from the closed formula for derivative %s of function %s' % (d, i),
                           dict(line=line, lean=rep[:300]), found_input=False)
             return
+    # ---- the wanted term lists of the Lean checkers are the oracle's exact coefficients
+    if not want_check(ctx):
+        return
     # ---- Gauss-Legendre: compiled table vs exact moments, and vs the binary64 rounding done in Lean
     gl = driver(['C10 gauss %d' % n for n in range(2, 65)], pid='C10')
     worst = F(0)
@@ -564,6 +567,71 @@ def _correspondence(ctx, clib):
     integrate_check(ctx)
 
 
+def oracle_terms(kind, d1, d2, i, j):
+    """{(e0, e1, f2..f9): Fraction} the exact polynomial the Lean checker must want (keys as in Core/CExpr.lean)"""
+    fm = [0] * 8
+    if kind == 'func':
+        if i < 4:
+            fm[i] = 1
+        return {(k, 0) + tuple(fm): c for k, c in enumerate(dbasis(i, d1)) if c}
+    if i < 4:
+        fm[i] += 1
+    if j < 4:
+        fm[4 + j] += 1
+    fm = tuple(fm)
+    if kind == 'full':
+        v = exact_full(d1, d2, i, j, [F(1)] * 8)[0]
+        return {(0, 0) + fm: v} if v else {}
+    if kind == 'sub':
+        out = {}
+        for k, c in enumerate(anti(d1, d2, i, j)):
+            if c and k:
+                out[(k, 0) + fm] = c          # variable 0 = xi2
+                out[(0, k) + fm] = -c         # variable 1 = xi1
+        return out
+    return {(t, a) + fm: c for (a, t), c in map_coefs(d1, d2, i, j).items()}      # variable 1 = c0, 0 = c1
+
+
+def want_check(ctx):
+    """Lean exact side (Bardell/Basis + Exact + Check wanted lists) == independent Python oracle, coefficient-wise"""
+    rng = ctx.rng
+    jobs = []
+    for d in range(3):
+        for i in range(30):
+            jobs.append(('func', d, 0, i, 0))
+    for kind, fams in (('full', FULLF), ('sub', SUBF), ('map', MAPF)):
+        for fam in fams:
+            d1, d2 = ct.DERIV[fam]
+            pairs = [(i, j) for i in range(30) for j in range(30)]
+            if not ctx.thorough():
+                pairs = rng.sample(pairs, 40)
+            jobs += [(kind, d1, d2, i, j) for (i, j) in pairs]
+    reps = driver(['C10 want %s %d %d %d %d' % job for job in jobs], pid='C10')
+    for job, rep in zip(jobs, reps):
+        ctx.evaluations += 1
+        tok = rep.split()
+        if tok[0] != 'ok':
+            ctx.violation('Lean driver cannot print the wanted terms of %r: %s' % (job, rep), dict(job=list(job)), found_input=False)
+            return False
+        den = int(tok[1])
+        got = {}
+        for item in tok[2:]:
+            key, c = item.split(':')
+            key = int(key)
+            ex = []
+            for _ in range(10):
+                ex.append(key % 128)
+                key //= 128
+            got[tuple(ex)] = F(int(c), den)
+        want = oracle_terms(*job)
+        if got != want:
+            ctx.violation('exact side of the Lean checker differs from the independent oracle for %r' % (job,),
+                          dict(job=list(job), lean_terms=len(got), oracle_terms=len(want)), found_input=False)
+            return False
+    ctx.cov['lean_exact_side_entries_compared_with_oracle'] = len(jobs)
+    return True
+
+
 def integrate_check(ctx):
     import numpy as np
     try:
@@ -572,6 +640,44 @@ def integrate_check(ctx):
         ctx.notes.append('compmech.integrate not importable: %r' % (e,))
         return
     rng = ctx.rng
+    # ---- H: hand model Model/Integrate.lean (through the driver) vs the compiled extension, point by point, in order
+    cases = [(2, 2), (2, 3), (3, 2), (1, 1), (1, 4), (4, 1), (5, 7), (8, 6)] + \
+            [(rng.randint(1, 14), rng.randint(1, 14)) for _ in range(ctx.scale(8, 60))]
+    lines, meta = [], []
+    for (nx, ny) in cases:
+        b = sorted([F(rng.randint(-24, 24), 8), F(rng.randint(-24, 24), 8)]) + sorted([F(rng.randint(-24, 24), 8), F(rng.randint(-24, 24), 8)])
+        if b[0] == b[1] or b[2] == b[3]:
+            continue
+        for name in ('trapz2d', 'simps2d'):
+            if name == 'trapz2d' and (nx < 2 or ny < 2):
+                continue
+            lines.append('C10 %s %s %s %d %s %s %d' % (name, q(b[0]), q(b[1]), nx, q(b[2]), q(b[3]), ny))
+            meta.append((name, b, nx, ny))
+    for k in (2, 3, 4, 9, 16):
+        lines.append('C10 trapzquad %d' % k)
+        meta.append(('trapzquad', None, k, None))
+    reps = driver(lines, pid='C10')
+    for (name, b, nx, ny), rep in zip(meta, reps):
+        ctx.evaluations += 1
+        vals = [unq(x) for x in rep.split()[1:]]
+        if name == 'trapzquad':
+            xis = np.zeros(nx)
+            ws = np.zeros(nx)
+            python_trapz_quad(nx, xis, ws)
+            impl = [v for pair in zip(xis, ws) for v in pair]
+            call = 'python_trapz_quad(%d, xis, weights)' % nx
+        else:
+            fn = trapz2d_points if name == 'trapz2d' else simps2d_points
+            out = [np.asarray(v) for v in fn(float(b[0]), float(b[1]), nx, float(b[2]), float(b[3]), ny)]
+            impl = [v for quad_ in zip(*out) for v in quad_]
+            call = 'compmech.integrate.integrate.%s_points(%r, %r, %d, %r, %r, %d)' % (name, float(b[0]), float(b[1]), nx, float(b[2]), float(b[3]), ny)
+        scale = max([abs(float(v)) for v in vals] + [1e-300])
+        if len(impl) != len(vals) or any(abs(float(m) - g) > 1e-12 * scale for m, g in zip(vals, impl)):
+            ctx.violation('model Model/Integrate.lean and the compiled %s disagree (number, order, coordinates or weights of the points)' % call,
+                          dict(c_call=call, model_points=len(vals), impl_points=len(impl)), found_input=False)
+            return
+        ctx.nontrivial.add(('H', name, nx, ny))
+    ctx.cov['integrate_model_vs_extension_cases'] = len(meta)
     grids = [(2, 2), (2, 3), (3, 2), (3, 3), (4, 5), (5, 4), (7, 9), (10, 6), (21, 33)]
     grids += [(rng.randint(2, 40), rng.randint(2, 40)) for _ in range(ctx.scale(20, 200))]
     n = 0
